@@ -98,9 +98,10 @@ class SMap(Sym):
     """dict with symbolic content: has: Array K Bool, val: Array K V (mutable box).
     Insertion order is not modelled by this class."""
 
-    __slots__ = ("has", "val", "kty", "vty", "size", "keys", "kpos", "heap")
+    __slots__ = ("has", "val", "kty", "vty", "size", "keys", "kpos", "heap", "lim")
 
-    def __init__(self, has, val, kty, vty, size=None, keys=None, kpos=None, heap=None):
+    def __init__(self, has, val, kty, vty, size=None, keys=None, kpos=None, heap=None, lim=None):
+        self.lim = lim  # for a snapshot: the allocation limit when it was taken (its references are older objects)
         self.heap = heap  # None: live dict; a frozen heap: the dict as part of a pre-state snapshot (its references read that heap)
         self.has = has
         self.val = val
@@ -200,6 +201,7 @@ class T:
     bytearray = Ty("bytearray")
     real = Ty("real")
     none = Ty("const", value=None)
+    opaque = Ty("opaque")  # element of a list whose content is never inspected (a log): one abstract integer per element
 
     @staticmethod
     def range(lo, hi):
@@ -239,8 +241,9 @@ class T:
         return Ty("oneof", values=values)
 
     @staticmethod
-    def map_of(kty, vty, ordered=False):
-        return Ty("map", kty=kty, vty=vty, ordered=ordered)
+    def map_of(kty, vty, ordered=False, sized=False):
+        """ordered: ghost iteration order (keys/kpos, implies a size); sized: only len() is modelled"""
+        return Ty("map", kty=kty, vty=vty, ordered=ordered, sized=sized)
 
     bytesio = Ty("bytesio")
 
@@ -269,7 +272,7 @@ def sort_of(ty: Ty):
         return RealS
     if ty.kind in ("bytes", "str", "bytearray"):
         return SeqI
-    if ty.kind == "ref":
+    if ty.kind in ("ref", "opaque"):
         return IntS
     if ty.kind == "const":
         return BoolS  # placeholder sort for maps whose values are all one constant (e.g. None)
@@ -321,6 +324,8 @@ def wrap(ty: Ty, e):
         return SReal(e)
     if ty.kind in ("bytes", "str", "bytearray"):
         return SBytes(e, ty.kind)
+    if ty.kind == "opaque":
+        return SInt(e)
     if ty.kind == "ref" and RESOLVE_CLS is not None:
         return SRef(RESOLVE_CLS(ty.cls), e)
     raise Unsupported(f"cannot wrap sort for {ty}")
